@@ -77,6 +77,12 @@ claims.update({
    'Not decided: correctness of matching/backtracking for all route sets x paths (needs a reference matcher, a dynamic technique).',
    'DESIGN.md 3.C09'),
 })
+claims.update({
+ 'C10': ('other', 'panic-capture path rule (panic exits) on every goroutine running a user function, channel-lifecycle ordering rules, once-only cancellation by value flow, guarded-write select shape, path table of the caller select',
+   'Every goroutine calling generate/mapper/reducer has a pre-registered deferred recover forwarding the value to the panic channel (written at most once, CAS-guarded); source closed by the generator on every exit; dispatcher: Wait -> close(collector) -> drain(source); done/output closed only inside one sync.Once; reducer goroutine drains the collector and finishes on every exit; the cancel handed to user code is the once-wrapped one, records the error (ErrCancelWithNil for nil), drains, finishes; user writes go through a non-blocking select on ctx/done; each received item starts exactly one worker/mapper call; caller: ctx expiry => cancel + DeadlineExceeded, user panic => drain(output) then re-panic with the received value, completion => recorded cancel error before any value, else value, else ErrReduceNoOutput (nil for void).',
+   'Not decided: deadlock- and leak-freedom and exactly-once delivery over all schedules (a model-checking question; these are the protocol\'s local obligations).',
+   'DESIGN.md 3.C10'),
+})
 not_built_reason = 'static rules designed (DESIGN.md section 3) but not built yet in this revision'
 
 checks, na = [], []
